@@ -13,6 +13,7 @@ mod c15;
 mod c18;
 mod c19;
 mod gate;
+mod mock;
 
 static LAST_PANIC: std::sync::Mutex<String> = std::sync::Mutex::new(String::new());
 
@@ -59,6 +60,7 @@ fn main() {
         ("c19", "run") => c19::cmd_run(rest),
         ("c19", "learn") => c19::cmd_learn(rest),
         ("c19", "stress") => c19::cmd_stress(rest),
+        ("mock", "demo") => mock::cmd_demo(rest),
         _ => {
             eprintln!("unknown command {:?}", &args[..2]);
             2
